@@ -68,6 +68,10 @@ def describe(v, depth=0, seen=None):
             sorted([k, describe(x, depth + 1, seen)] for k, x in attrs.items())]
 
 
+class JobTimeout(BaseException):
+    """The reference gave up on a program (the generator promises termination; this is a safety net)."""
+
+
 class PaddedStdin(io.TextIOBase):
     """stdin holding the queued inputs; after them either EOF (pad None) or `pad` forever."""
 
@@ -164,6 +168,8 @@ def run_job(job):
         with tr:
             try:
                 exec(compile(code, filename, "exec"), g)
+            except JobTimeout:
+                raise
             except BaseException as e:      # noqa  (SystemExit included: it is an outcome of the program)
                 res["outcome"] = [type(e).__name__, innermost_line(e, filename)]
                 res["outcome_mro"] = [k.__name__ for k in type(e).__mro__]
@@ -185,6 +191,8 @@ def run_job(job):
                 try:
                     fn = g[c["fn"]]
                     r = ["ret", describe(fn(*args, **kwargs))]
+                except JobTimeout:
+                    raise
                 except BaseException as e:  # noqa
                     r = ["exc", type(e).__name__]
                 res["calls"].append({"result": r, "events": tr.take()})
@@ -206,11 +214,21 @@ def main(argv):
     with open(argv[1]) as fh:
         jobs = json.load(fh)
     results = []
+    import signal
+
+    def on_alarm(*a):
+        raise JobTimeout()
+    signal.signal(signal.SIGALRM, on_alarm)
     for job in jobs:
         try:
+            signal.alarm(int(job.get("time_limit", 10)))
             results.append(run_job(job))
+        except JobTimeout:
+            results.append({"timeout": True})
         except BaseException as e:       # noqa
             results.append({"harness_error": "%s: %s" % (type(e).__name__, e)})
+        finally:
+            signal.alarm(0)
     with open(argv[2], "w") as fh:
         json.dump(results, fh)
     return 0
